@@ -54,6 +54,13 @@ def Y(target):
     sched = getattr(tls, 'sched', None)
     if sched is not None:
         sched.yield_point()
+    hook = getattr(tls, 'reenter', None)
+    if hook is not None:
+        tls.reenter = None          # (the inner call's own yield points do not re-enter again)
+        try:
+            hook()
+        finally:
+            tls.reenter = hook
     return target
 
 
@@ -196,45 +203,59 @@ def programs(n_yields):
         dict(name='failing-in-list', target=nums, spec=lambda: [lambda x: Y(x)] if not n_yields else ([lambda x: Y(x)], T[99])),
         # ONE First(...) spec object shared by calls whose scope binds the same name to different values; the key spec yields
         # before it reads the binding
-        dict(name='shared-first-3', target=lambda: {'lim': 3, 'items': list(range(10))}, spec=lambda: _shared_first(n_yields)),
-        dict(name='shared-first-6', target=lambda: {'lim': 6, 'items': list(range(10))}, spec=lambda: _shared_first(n_yields)),
+        dict(name='shared-first-3', family='first', target=lambda: {'lim': 3, 'items': list(range(10))}, spec=lambda: _shared_first(n_yields)),
+        dict(name='shared-first-6', family='first', target=lambda: {'lim': 6, 'items': list(range(10))}, spec=lambda: _shared_first(n_yields)),
         # ONE Coalesce object, all of whose branches yield and then fail, shared by overlapping calls: each call's CoalesceError
         # lists its own attempts only
-        dict(name='shared-coalesce-exhausted-a', target=lambda: {'a': 1}, spec=lambda: _shared_coalesce(n_yields)),
-        dict(name='shared-coalesce-exhausted-b', target=lambda: {'b': 2, 'zz0': {}}, spec=lambda: _shared_coalesce(n_yields)),
+        dict(name='shared-coalesce-exhausted-a', family='coalesce', target=lambda: {'a': 1}, spec=lambda: _shared_coalesce(n_yields)),
+        dict(name='shared-coalesce-exhausted-b', family='coalesce', target=lambda: {'b': 2, 'zz0': {}}, spec=lambda: _shared_coalesce(n_yields)),
         # ONE S(v=Vars(last='init')) step shared by calls that write into their Vars between two reads
-        dict(name='shared-vars-a', target=lambda: {'me': 'a'}, spec=lambda: _shared_vars(n_yields)),
-        dict(name='shared-vars-b', target=lambda: {'me': 'b'}, spec=lambda: _shared_vars(n_yields)),
+        dict(name='shared-vars-a', family='vars', target=lambda: {'me': 'a'}, spec=lambda: _shared_vars(n_yields)),
+        dict(name='shared-vars-b', family='vars', target=lambda: {'me': 'b'}, spec=lambda: _shared_vars(n_yields)),
         # ONE Iter(..).unique() pipeline object shared by overlapping calls: each call de-duplicates its own stream
-        dict(name='shared-unique', target=lambda: [i % 3 for i in range(max(n_yields, 1))], spec=lambda: _shared_unique(),
+        dict(name='shared-unique', family='unique', target=lambda: [i % 3 for i in range(max(n_yields, 1))], spec=lambda: _shared_unique(),
              fresh=lambda: Iter(Y).unique().map(T * 10).all()),
-        dict(name='shared-unique-b', target=lambda: [(i + 1) % 4 for i in range(max(n_yields, 1))], spec=lambda: _shared_unique()),
+        dict(name='shared-unique-b', family='unique', target=lambda: [(i + 1) % 4 for i in range(max(n_yields, 1))], spec=lambda: _shared_unique()),
         # ONE Iter pipeline object evaluated through two different registries (plain glom, and a Glommer that iterates Rows
         # objects with a header line): each call iterates its target the way ITS registry says
-        dict(name='shared-iter-default-registry', target=lambda: Rows(['x', 'y'][:max(min(n_yields, 2), 1)]), spec=lambda: _shared_iter(), fresh=lambda: Iter(Y).map(T * 2).all()),
-        dict(name='shared-iter-own-registry', target=lambda: Rows(['x', 'y'][:max(min(n_yields, 2), 1)]), spec=lambda: _shared_iter(), entry=_ROWS_GLOMMER.glom,
+        dict(name='shared-iter-default-registry', family='iter-reg', target=lambda: Rows(['x', 'y'][:max(min(n_yields, 2), 1)]), spec=lambda: _shared_iter(), fresh=lambda: Iter(Y).map(T * 2).all()),
+        dict(name='shared-iter-own-registry', family='iter-reg', target=lambda: Rows(['x', 'y'][:max(min(n_yields, 2), 1)]), spec=lambda: _shared_iter(), entry=_ROWS_GLOMMER.glom,
              fresh=lambda: Iter(Y).map(T * 2).all()),
         # ONE Invoke object whose **kwargs come from the target (different keys per call) on top of constants
-        dict(name='shared-invoke-star-a', target=lambda: {'opts': {'upper': True}}, spec=lambda: _shared_invoke(),
+        dict(name='shared-invoke-star-a', family='invoke', target=lambda: {'opts': {'upper': True}}, spec=lambda: _shared_invoke(),
              fresh=lambda: Invoke(_kw_collect).constants(sep=', ').star(kwargs=(Y, 'opts'))),
-        dict(name='shared-invoke-star-b', target=lambda: {'opts': {}}, spec=lambda: _shared_invoke(),
+        dict(name='shared-invoke-star-b', family='invoke', target=lambda: {'opts': {}}, spec=lambda: _shared_invoke(),
              fresh=lambda: Invoke(_kw_collect).constants(sep=', ').star(kwargs=(Y, 'opts'))),
-        dict(name='shared-invoke-star-c', target=lambda: {'opts': {'lower': 1, 'sep': '|'}}, spec=lambda: _shared_invoke(),
+        dict(name='shared-invoke-star-c', family='invoke', target=lambda: {'opts': {'lower': 1, 'sep': '|'}}, spec=lambda: _shared_invoke(),
              fresh=lambda: Invoke(_kw_collect).constants(sep=', ').star(kwargs=(Y, 'opts'))),
         # wildcards over ONE class through two registries that walk it differently (no spec object is shared here: whatever
         # is remembered about the class must be remembered per registry)
-        dict(name='star-default-registry', target=lambda: {'r': SlotRows(['x', 'y'])}, spec=lambda: chain('r.*'), expect_value=[]),
-        dict(name='star-own-registry', target=lambda: {'r': SlotRows(['x', 'y'])}, spec=lambda: chain('r.*'), entry=_ROWS_GLOMMER.glom,
+        dict(name='star-default-registry', family='star-reg', target=lambda: {'r': SlotRows(['x', 'y'])}, spec=lambda: chain('r.*'), expect_value=[]),
+        dict(name='star-own-registry', family='star-reg', target=lambda: {'r': SlotRows(['x', 'y'])}, spec=lambda: chain('r.*'), entry=_ROWS_GLOMMER.glom,
              expect_value=['hdr', 'x', 'y']),
         # ONE Assign(.., missing=factory) object whose factory yields: each call stores ITS value in ITS target
-        dict(name='shared-assign-missing-a', target=lambda: {'v': threading.get_ident()}, spec=lambda: _shared_assign_missing(), fresh=lambda: _mk_assign_missing()),
-        dict(name='shared-assign-missing-b', target=lambda: {'v': 'b', 'x': {}}, spec=lambda: _shared_assign_missing(), fresh=lambda: _mk_assign_missing()),
+        dict(name='shared-assign-missing-a', family='assign-missing', target=lambda: {'v': threading.get_ident()}, spec=lambda: _shared_assign_missing(), fresh=lambda: _mk_assign_missing()),
+        dict(name='shared-assign-missing-b', family='assign-missing', target=lambda: {'v': 'b', 'x': {}}, spec=lambda: _shared_assign_missing(), fresh=lambda: _mk_assign_missing()),
         # two DIFFERENT specs that both define Ref('node', ..) (one sums a tree, one lists it), each with a yield inside the body
-        dict(name='ref-node-sum', target=lambda: _ref_tree(), spec=lambda: _ref_sum_spec()),
-        dict(name='ref-node-list', target=lambda: _ref_tree(), spec=lambda: _ref_list_spec()),
+        dict(name='ref-node-sum', family='ref-node', target=lambda: _ref_tree(), spec=lambda: _ref_sum_spec()),
+        dict(name='ref-node-list', family='ref-node', target=lambda: _ref_tree(), spec=lambda: _ref_list_spec()),
         # ONE spec with EMPTY container literals in argument position that its own steps then fill in place
-        dict(name='shared-empty-literal-a', target=lambda: [1, 2], spec=lambda: _shared_empty_literal(), fresh=lambda: _mk_empty_literal()),
-        dict(name='shared-empty-literal-b', target=lambda: [10, 20, 30], spec=lambda: _shared_empty_literal(), fresh=lambda: _mk_empty_literal()),
+        dict(name='shared-empty-literal-a', family='empty-literal', target=lambda: [1, 2], spec=lambda: _shared_empty_literal(), fresh=lambda: _mk_empty_literal()),
+        dict(name='shared-empty-literal-b', family='empty-literal', target=lambda: [10, 20, 30], spec=lambda: _shared_empty_literal(), fresh=lambda: _mk_empty_literal()),
+        # a Check that collects several failure messages, with a yield (a re-entry point) between the conditions
+        dict(name='check-collects-messages', target=lambda: 5,
+             spec=lambda: Check(validate=(lambda v: Y(v) is not None, lambda v: Y(v) is None, lambda v: Y(v) == 6), instance_of=str, equal_to=7)),
+        dict(name='check-collects-messages-default', target=lambda: [5, 'five'],
+             spec=lambda: [Check(validate=(lambda v: Y(v) is not None, lambda v: Y(v) is None), type=int, default='rejected')]),
+        # ONE Sum / Flatten / Count object used as the aggregator of a Group by one call and as a plain reduction by another;
+        # its subspec yields
+        dict(name='shared-sum-as-aggregator', family='two-roles', target=lambda: [1, 2, 3, 4][:max(n_yields, 1)], spec=lambda: Group({(lambda x: x % 2): _TWO_ROLES['sum']}),
+             fresh=lambda: Group({(lambda x: x % 2): Sum((Y, T))})),
+        dict(name='shared-sum-as-reduction', family='two-roles', target=lambda: [10, 20, 30], spec=lambda: _TWO_ROLES['sum'], fresh=lambda: Sum((Y, T))),
+        dict(name='shared-flatten-as-aggregator', family='two-roles', target=lambda: [[1], [2, 3], [4]][:max(n_yields, 1)], spec=lambda: Group(_TWO_ROLES['flatten']),
+             fresh=lambda: Group(Flatten((Y, T)))),
+        dict(name='shared-flatten-as-reduction', family='two-roles', target=lambda: [[7], [8, 9]], spec=lambda: _TWO_ROLES['flatten'], fresh=lambda: Flatten((Y, T))),
+        dict(name='shared-sum-failing-reduction', family='two-roles', target=lambda: 42, spec=lambda: _TWO_ROLES['sum']),
         # every call raises an exception of ITS OWN class; all these classes share one __name__
         dict(name='same-named-exceptions', target=lambda: {'cls': type('NotFound', (LookupError,) if next(_serial) % 2 else (ValueError,), {})},
              spec=lambda: chain(T) + (lambda t: (_ for _ in ()).throw(t['cls']('nf')),),
@@ -251,6 +272,7 @@ def programs(n_yields):
 
 _SHARED_ARG = {}
 _SHARED_FIRST = {}
+_TWO_ROLES = {'sum': Sum((Y, T)), 'flatten': Flatten((Y, T))}
 
 
 def _shared_first(n):
@@ -489,6 +511,17 @@ def enumerated(col, rng, mon, n_threads, n_yields, max_schedules, combos, self_s
     # every program against itself (same shared spec object / same path texts / same handler code in all threads),
     # then random mixed combinations
     plan = [([p] * n_threads, self_schedules) for p in P]
+    # programs of one family share an object (or a name, or a class seen through two registries): every ordered pair of them
+    fams = {}
+    for p in P:
+        if 'family' in p:
+            fams.setdefault(p['family'], []).append(p)
+    for fam in sorted(fams):
+        for a_ in fams[fam]:
+            for b_ in fams[fam]:
+                if a_ is not b_:
+                    plan.append(([a_, b_] + [rng.choice(fams[fam]) for _ in range(n_threads - 2)], self_schedules))
+                    col.count('family_pairs_planned')
     plan += [([rng.choice(P) for _ in range(n_threads)], max_schedules) for _ in range(combos)]
     for progs, n_s in plan:
         scheds = all_scheds if len(all_scheds) <= n_s else rng.sample(all_scheds, n_s)
@@ -675,6 +708,41 @@ def reentrant(col, rng):
                                       'program %s run re-entrantly (depth %d, inside %s) gave %s ; alone %s'
                                       % (name, depth, ctxname, short(sig, 500), short(isolated[name], 500)), {'program': name, 'depth': depth})
                         break
+    # (1') the OUTER call is not disturbed either: every yield point of an outer program makes a complete inner call (whose outcome
+    # is dropped); the outer program gives what it gives alone - with the same program as inner call (same shared objects), with
+    # programs of its family, and with a sample of the others
+    P2 = programs(2)
+    alone2 = {p['name']: run_program(p) for p in P2}
+    by_name = {p['name']: p for p in P}
+    for outer in P2:
+        inners = [by_name[outer['name']]] + [q for q in P if q.get('family') and q.get('family') == outer.get('family') and q['name'] != outer['name']]
+        inners += [q for q in P if q['name'].startswith('check-')] + rng.sample(P, 4)
+        for inner in inners:
+            ran = []
+
+            def hook(inner=inner):
+                ran.append(signature(call(inner.get('entry', G), inner['target'](), inner['spec'](), **inner.get('kw', {}))))
+            tls.reenter = hook
+            try:
+                got = run_program(outer)
+            finally:
+                tls.reenter = None
+            col.case(('reentrant-outer', outer['name'], inner['name']), bool(ran))
+            col.count('reentrant_calls', len(ran))
+            col.count('outer_calls_with_inner_calls_at_their_yield_points')
+            if got != alone2[outer['name']]:
+                col.violation('C20/reentrant-inner-call-changes-the-outer-outcome:%s' % outer['name'],
+                              'program %s with a complete inner call of %s at each of its yield points (%d made) gave %s ; alone %s'
+                              % (outer['name'], inner['name'], len(ran), short(got, 500), short(alone2[outer['name']], 500)),
+                              {'outer': outer['name'], 'inner': inner['name']})
+                break
+            # (programs with a `post` observer build a new class per call: their outcomes are compared by that observer, in (1))
+            bad = [r for r in ran if r != isolated[inner['name']][:len(r)]] if 'post' not in inner else []
+            if bad:
+                col.violation('C20/reentrant-outcome-differs:%s' % inner['name'],
+                              'program %s called at a yield point of %s gave %s ; alone %s'
+                              % (inner['name'], outer['name'], short(bad[0], 500), short(isolated[inner['name']], 500)), {'outer': outer['name'], 'inner': inner['name']})
+                break
     # (2) inner failure absorbed by an outer Coalesce; the outer call continues normally
     for prog in P:
         if isolated[prog['name']][0] != 'error':
